@@ -76,6 +76,13 @@ def units(rng, tier):
             fmt = rng.choice(gen.FORMATS)
             ids = gen.ids_for(rng, len(v))
             us += group(lambda out, a=a, C=C, v=v, fmt=fmt, ids=ids, fam=fam: pack_unit(a, C, v, rng, fmt=fmt, out=out, cmp="bins", family=fam, ids=ids))
+    # complete KK with five bins and many equal small values: its two managers de-duplicate search states differently
+    for _ in range(60 if tier == "quick" else 800):
+        hi = rng.choice([3, 6, 6, 10])
+        v = [rng.randint(1, hi) for _ in range(rng.randint(5, 9))]
+        ids = gen.ids_for(rng, len(v))
+        fmt = rng.choice(["list", "dict_str"])
+        us += group(lambda out, v=v, fmt=fmt, ids=ids: part_unit("ckk", 5, v, rng, fmt=fmt, out=out, cmp="sums", family="ckk-5bins-small-values", ids=ids))
     # covers whose control flow depends on WHICH items are present (class of the smallest item, emptiness of a class): instances made of
     # threshold values plus zero-valued and tiny items, where an adaptor that treats an output type specially shows up
     for _ in range(250 if tier == "quick" else 3000):
